@@ -195,6 +195,11 @@ func (k Keeper) AddDeposit(ctx sdk.Context, receiverAddr, senderAddr sdk.AccAddr
 		return false, err
 	}
 
+	if durationExtension > types.MaxDurationSeconds {
+		// time.Second * time.Duration(d) wraps beyond ~292 years and would move the deposit zero time into the past
+		return false, sdkerrors.Wrapf(types.ErrInvalidData, "duration of %d seconds is too long. Must be <= %d", durationExtension, types.MaxDurationSeconds)
+	}
+
 	// set and save new stream data
 	// add topUpDeposit to current stream deposit
 	newDeposit := stream.Deposit.Add(topUpDeposit) // may have been refreshed above for expired streams
@@ -255,6 +260,9 @@ func (k Keeper) SetNewFlowRate(ctx sdk.Context, receiverAddr, senderAddr sdk.Acc
 		// above. We're effectively creating a "new" stream, based on existing deposit value
 		// and the new flow rate
 		duration = types.CalculateDuration(stream.Deposit, newFlowRate)
+		if duration > types.MaxDurationSeconds {
+			return sdkerrors.Wrapf(types.ErrInvalidData, "duration of %d seconds is too long. Must be <= %d", duration, types.MaxDurationSeconds)
+		}
 		depositZeroTime = nowTime.Add(time.Second * time.Duration(duration))
 	}
 
